@@ -16,11 +16,21 @@
    end-of-line, at any offset, into a fresh list of any capacity: ok after the line, every value
    counted (also those that do not fit), value j = URI j at its own offset, the header-value span runs
    from the first "<" to the last ">".
-   PARTIAL: quoted display names, bare URIs with parameters, several parameters,
-   white space and folds around ';' '=' ',', commas inside quotes / brackets and the expires summary
-   are not proved against the grammar: render/parse oracle on values, lists and messages (offsets
-   != 0, chunked, reused objects) and correspondence. *)
-From Sipsp Require Import Harness IP4 Numbers Misc NameAddrSpec NameAddrParam ContactSpec Capacity UpperBound NestMsg SigCoherent.
+   The parameter part in general (NameAddrGen.v; C09_bracketed_uri_and_parameters, C09_bare_uri_and_parameters and their
+   _then_comma forms): after "<" uri ">" or after a bare URI, at any offset after any bytes, for every header kind,
+        [LWS] ";" *( [LWS] name [ [LWS] "=" [LWS] ( token | quoted-string ) ] [LWS] ";" ) [LWS] name [ ... ]
+   ended by blanks and the end of the header line (ok, offset after the line) or - for the kinds that take several values - by
+   [LWS] "," (more values, offset after the comma): every parameter in order reaches the dispatch tag / expires / q / lr / other
+   with exactly its name text and value text (a quoted value with its quotes, commas and semicolons inside it do not split), a
+   parameter without value only sets lr; the display name, the URI (without the brackets) and the star flag are those of the
+   head; the parameter span runs from the first byte of the first name to the last byte of the last name or value, the
+   whole-value span from the first byte of the value to the same end, white space before the comma or the line end excluded
+   (C09_general_result_fields); parameters of a bare URI are treated as header parameters (same statement, twin states).
+   The expires summary (NestMsg.v): C09_expires_summary_bounds_every_value.
+   PARTIAL: display names (token or quoted) in front of the general parameter part, white space inside quoted values, commas
+   inside the brackets: render/parse oracle on values, lists and messages (offsets != 0, chunked, reused objects) and
+   correspondence. *)
+From Sipsp Require Import Harness IP4 Numbers Misc NameAddrSpec NameAddrParam ContactSpec Capacity UpperBound NestMsg SigCoherent HdrSpec TokItem NameAddrGen.
 Theorem C09_contact_expires_value : forall ds, all_digits ds -> expires_of ds = N.min (dec ds) MaxU32.
 Proof. exact contact_expires_saturates. Qed.
 Theorem C09_multi_value_header_kinds : forall h,
@@ -114,5 +124,114 @@ Proof.
   intros flags B offs bl n nc o s o' e m' Hf Ho Hfd H Hs.
   destruct (message_np_fed flags B offs bl n nc o s o' e m' Hf Ho Hfd H Hs) as (_ & _ & _ & (_ & HX) & _). exact HX.
 Qed.
+(* ---- the parameter part in general ------------------------------------------------------------------------------------------------------------ *)
+Theorem C09_bracketed_uri_and_parameters : forall h (junk uri g : list byte) L t (sp : list byte) x tail,
+  Forall uchar uri -> gap 0 g -> Forall t_ok L -> t_ok t -> spaces sp -> is_sp x = false ->
+  let i0 := nnat (length junk) in let i := i0 + nnat (length (headA uri g)) in let j := i + nnat (length (its_bytes L)) in
+  parse_nameaddr h (junk ++ headA uri g ++ its_bytes L ++ t_body t ++ sp ++ CR :: LF :: x :: tail) i0 pfrom0
+  = Done (t_d j t + nnat (length sp) + 2) EOk (finW h (t_d j t) (t_apply false j t (its_state false i L (bA i0 (nnat (length uri)))))).
+Proof. exact nameaddr_bracket_params_eol. Qed.
+Theorem C09_bracketed_uri_and_parameters_then_comma : forall h (junk uri g : list byte) L t (y : list byte),
+  multipleValsOk h = true -> Forall uchar uri -> gap 0 g -> Forall t_ok L -> t_ok t ->
+  let i0 := nnat (length junk) in let i := i0 + nnat (length (headA uri g)) in let j := i + nnat (length (its_bytes L)) in
+  parse_nameaddr h (junk ++ headA uri g ++ its_bytes L ++ t_body t ++ t_g4 t ++ (44 : byte) :: y) i0 pfrom0
+  = Done (t_d j t + nnat (length (t_g4 t)) + 1) EMoreValues (finW h (t_d j t) (t_apply false j t (its_state false i L (bA i0 (nnat (length uri)))))).
+Proof. exact nameaddr_bracket_params_comma. Qed.
+Theorem C09_bare_uri_and_parameters : forall h (junk : list byte) n0 (name g : list byte) L t (sp : list byte) x tail,
+  nchar0 n0 -> Forall nchar name -> gap 0 g -> Forall t_ok L -> t_ok t -> spaces sp -> is_sp x = false ->
+  let i0 := nnat (length junk) in let i := i0 + nnat (length (headB n0 name g)) in let j := i + nnat (length (its_bytes L)) in
+  parse_nameaddr h (junk ++ headB n0 name g ++ its_bytes L ++ t_body t ++ sp ++ CR :: LF :: x :: tail) i0 pfrom0
+  = Done (t_d j t + nnat (length sp) + 2) EOk (finW h (t_d j t) (t_apply true j t (its_state true i L (bB i0 (nnat (length (n0 :: name))) g)))).
+Proof. exact nameaddr_bare_params_eol. Qed.
+Theorem C09_bare_uri_and_parameters_then_comma : forall h (junk : list byte) n0 (name g : list byte) L t (y : list byte),
+  multipleValsOk h = true -> nchar0 n0 -> Forall nchar name -> gap 0 g -> Forall t_ok L -> t_ok t ->
+  let i0 := nnat (length junk) in let i := i0 + nnat (length (headB n0 name g)) in let j := i + nnat (length (its_bytes L)) in
+  parse_nameaddr h (junk ++ headB n0 name g ++ its_bytes L ++ t_body t ++ t_g4 t ++ (44 : byte) :: y) i0 pfrom0
+  = Done (t_d j t + nnat (length (t_g4 t)) + 1) EMoreValues (finW h (t_d j t) (t_apply true j t (its_state true i L (bB i0 (nnat (length (n0 :: name))) g)))).
+Proof. exact nameaddr_bare_params_comma. Qed.
+(* what the statements are made of *)
+Theorem C09_heads_mean : forall uri g n0 name,
+  headA uri g = (60 : byte) :: uri ++ (62 : byte) :: g ++ [(59 : byte)] /\ headB n0 name g = (n0 :: name) ++ g ++ [(59 : byte)].
+Proof. intros. split; reflexivity. Qed.
+Theorem C09_parameter_text_means : forall t,
+  t_body t = t_g1 t ++ t_name t ++ (match t_val t with Some (g2, g3, V) => g2 ++ (61 : byte) :: g3 ++ V | None => [] end) /\
+  t_bytes t = t_body t ++ t_g4 t ++ [(59 : byte)] /\
+  (t_ok t <-> gap 0 (t_g1 t) /\ (exists n0 name, t_name t = n0 :: name /\ pchar n0 /\ Forall pchar name) /\
+              match t_val t with Some (g2, g3, V) => gap 0 g2 /\ gap 0 g3 /\ valtxt V | None => True end /\ gap 0 (t_g4 t)).
+Proof. intros t. split; [reflexivity|]. split; reflexivity. Qed.
+Theorem C09_value_text_means : forall V, valtxt V <->
+  (exists v0 value, V = v0 :: value /\ vchar v0 /\ Forall vchar value) \/ (exists q, V = (34 : byte) :: q ++ [(34 : byte)] /\ fqc q).
+Proof.
+  intros V. split.
+  - intros [v0 value H1 H2|q Hq]; [left; eauto|right; eauto].
+  - intros [(v0 & value & -> & H1 & H2)|(q & -> & Hq)]; [apply vt_tok; assumption|apply vt_quoted; exact Hq].
+Qed.
+Theorem C09_white_space_means : forall w, gap 0 w <->
+  w = [] \/ ((exists c0 w', w = c0 :: w' /\ is_ws c0 = true) /\ forall c r, is_ws c = false -> skipLWS false (w ++ c :: r) = LOk (length w)).
+Proof. intros w. reflexivity. Qed.
+(* every parameter in order: the state after a parameter is the state before it with the parameter handed to the dispatch *)
+Theorem C09_parameters_in_order_mean : forall p i t L b,
+  its_state p i [] b = b /\ its_state p i (t :: L) b = its_state p (i + nnat (length (t_bytes t))) L (t_apply p i t b) /\
+  t_apply p i t b =
+    (let a := i + nnat (length (t_g1 t)) in let e := a + nnat (length (t_name t)) in let d := i + nnat (length (t_body t)) in
+     let prm := if po (fb_params b) =? 0 then mkpf a (pl (fb_params b)) else fb_params b in
+     match t_val t with
+     | Some (g2, g3, V) => pclr (apply_param (t_name t) V (W b (st_newparam p) a e (e + nnat (length g2) + 1 + nnat (length g3)) d prm))
+     | None => pclr (apply_flag (t_name t) (W b (st_newparam p) a e 0 0 prm))
+     end).
+Proof. intros p i t L b. split; [reflexivity|]. split; [reflexivity|]. unfold t_apply, t_c, t_e, t_a, t_d, prm1. destruct (t_val t) as [[[g2 g3] V]|]; reflexivity. Qed.
+Theorem C09_dispatch_means : forall name val s,
+  apply_param name val s =
+    (if eqb_nocase name str_tag then s <| fb_tag := mkpf (fb_vstart s) (fb_vend s - fb_vstart s) |>
+     else if eqb_nocase name str_expires then
+       s <| fb_hasexp := true |> <| fb_expires := (let '(e, _) := pUInt64Val val in if e <? MaxU32 then e else MaxU32) |>
+     else if eqb_nocase name str_q then set_q val s
+     else if eqb_nocase name str_lr then s <| fb_lr := true |>
+     else s) /\
+  apply_flag name s = (if eqb_nocase name str_lr then s <| fb_lr := true |> else s).
+Proof. intros. split; reflexivity. Qed.
+Theorem C09_general_result_fields : forall h p L t i b d, 0 < i -> po (fb_params b) = 0 ->
+  let j := i + nnat (length (its_bytes L)) in
+  let s' := finW h d (t_apply p j t (its_state p i L b)) in
+  fb_state s' = FbFIN /\ fb_type s' = h /\ fb_name s' = fb_name b /\ fb_uri s' = fb_uri b /\ fb_star s' = fb_star b /\
+  fb_params s' = mkpf (first_a i L t) (d - first_a i L t) /\ fb_v s' = mkpf (po (fb_v b)) (d - po (fb_v b)).
+Proof. exact gen_result_fields. Qed.
+Theorem C09_head_states_mean : forall i0 lu g,
+  bA i0 lu = mkpfrom pf0 (mkpf (i0 + 1) lu) pf0 false false false 0 0 0 pf0 (mkpf i0 (lu + 2)) EOk 0 FbNewParam 0 0 0 0 0 /\
+  fb_uri (bB i0 lu g) = mkpf i0 lu /\ fb_name (bB i0 lu g) = pf0 /\ fb_star (bB i0 lu g) = false /\ po (fb_v (bB i0 lu g)) = i0 /\ po (fb_params (bB i0 lu g)) = 0.
+Proof. intros. repeat split; reflexivity. Qed.
+(* satisfiable, and the closed forms evaluated: " <a> ;tag=x1 ; expires = 30;lr;x=\"a,b\"" CR LF at offset 1 (Contact), and
+   "s:a;lr ;tag=z ," - a bare URI, ended by a comma *)
+Example C09_general_example :
+  let L := [mkpit [] [116;97;103] (Some ([], [], [120;49])) [32]; mkpit [32] [101;120;112;105;114;101;115] (Some ([32], [32], [51;48])) []; mkpit [] [108;114] None []] in
+  let t := mkpit [] [120] (Some ([], [], [34;97;44;98;34])) [] in
+  Forall t_ok L /\ t_ok t /\ gap 0 [32] /\
+  [32] ++ headA [97] [32] ++ its_bytes L ++ t_body t ++ [] ++ CR :: LF :: [65]
+  = [32; 60;97;62; 32; 59; 116;97;103;61;120;49; 32; 59; 32; 101;120;112;105;114;101;115; 32; 61; 32; 51;48; 59; 108;114; 59; 120;61;34;97;44;98;34; 13;10; 65] /\
+  finW HdrContact (t_d 31 t) (t_apply false 31 t (its_state false 6 L (bA 1 1)))
+  = mkpfrom pf0 (mkpf 2 1) (mkpf 10 2) false true true HdrContact 0 30 (mkpf 6 32) (mkpf 1 37) EOk 0 FbFIN 0 0 0 0 0 /\
+  let t2 := mkpit [] [116;97;103] (Some ([], [], [122])) [32] in
+  t_ok t2 /\ t_ok (mkpit [] [108;114] None [32]) /\
+  headB 115 [58;97] [] ++ its_bytes [mkpit [] [108;114] None [32]] ++ t_body t2 ++ t_g4 t2 ++ 44 :: [60] = [115;58;97;59; 108;114;32;59; 116;97;103;61;122; 32; 44; 60] /\
+  finW HdrContact (t_d 8 t2) (t_apply true 8 t2 (its_state true 4 [mkpit [] [108;114] None [32]] (bB 0 3 [])))
+  = mkpfrom pf0 (mkpf 0 3) (mkpf 12 1) false true false HdrContact 0 0 (mkpf 4 9) (mkpf 0 13) EOk 0 FbFIN 0 0 0 0 0.
+Proof.
+  assert (Gs : gap 0 [32]) by (right; apply wsrun_blanks; [discriminate|repeat constructor]).
+  assert (G0 : gap 0 []) by (left; reflexivity).
+  assert (P : forall c, ccls_of c = KOther -> pchar c) by (intros c H; exact H).
+  cbv zeta. repeat split; try exact Gs; try exact G0; try (vm_compute; reflexivity).
+  all: try (apply (vt_quoted [97;44;98]); repeat (apply fqc_plain; [discriminate|discriminate|discriminate|]); apply fqc_nil).
+  all: try (apply vt_tok; [exact I|repeat constructor]).
+  all: try (repeat constructor; fail).
+  all: try (constructor; [|constructor; [|constructor; [|constructor]]]; unfold t_ok; cbn [t_g1 t_name t_val t_g4]; repeat split; try exact Gs; try exact G0).
+  all: try (apply vt_tok; [exact I|repeat constructor]).
+  all: try (eexists; eexists; split; [reflexivity|split; [reflexivity|repeat constructor]]).
+  all: try (apply vt_tok; [exact I|repeat constructor]).
+Qed.
+Print Assumptions C09_bracketed_uri_and_parameters.
+Print Assumptions C09_bracketed_uri_and_parameters_then_comma.
+Print Assumptions C09_bare_uri_and_parameters.
+Print Assumptions C09_bare_uri_and_parameters_then_comma.
+Print Assumptions C09_general_result_fields.
 Print Assumptions C09_uri_and_tag_at_any_offset.
 Print Assumptions C09_expires_summary_bounds_every_value.
